@@ -14,11 +14,14 @@ Proof.
   rewrite trace_cons, final_cons, mon_run_app, (hooks_step fx s o H k). apply IH. apply fin_step. exact H.
 Qed.
 
-Lemma init_events_calls k cf b : mon_run (alt_mon (cls_call k)) b (init_events cf) = Some b.
-Proof. unfold init_events. destruct (c_static cf && negb (c_sod cf)); reflexivity. Qed.
-
-Lemma open_init k cf : open_of k (init_state cf) = false.
-Proof. destruct k; reflexivity. Qed.
+(* initialize(): on an alwaysAvailable path the available pair is opened (nothing else is) *)
+Lemma init_events_calls k cf :
+  mon_run (alt_mon (cls_call k)) false (init_events cf) = Some (open_of k (init_state cf)).
+Proof.
+  rewrite mon_hev. unfold init_events, init_state, init_m.
+  rewrite hev_bind, !hevs_whenM, hevs_set_available, hevs_handler_start.
+  destruct cf as [st sd ? ? ? ? ? ? ? ? a]. destruct k, a, st, sd; reflexivity.
+Qed.
 
 (* the whole trace of a history (initialize() included), for each hook pair: calls alternate open / close,
    starting with open, and the pair is open at the end iff the state says so *)
@@ -28,7 +31,7 @@ Lemma c20_calls fx cf ops k :
   = Some (open_of k (fst (run_gen fx cf ops))).
 Proof.
   intros Hc. unfold run_gen. cbn [fst snd]. rewrite mon_run_app, init_events_calls.
-  rewrite <- (open_init k cf). apply calls_lift. apply inv_init. exact Hc.
+  apply calls_lift. apply inv_init. exact Hc.
 Qed.
 
 Lemma c20_alternates fx cf ops k :
@@ -42,7 +45,7 @@ Lemma c20_closed fx cf ops k :
 Proof.
   intros Hc Hcl. unfold alternates_closed. rewrite c20_calls by exact Hc. f_equal.
   pose proof (inv_run fx cf ops Hc) as [Hb _]. unfold run_gen in Hcl. cbn [fst] in Hcl. unfold run_gen. cbn [fst].
-  destruct (closed_facts _ _ Hb Hcl) as (_ & A & _ & _ & B & C).
+  destruct (closed_facts _ _ Hb Hcl) as (_ & A & _ & _ & B & C & _).
   destruct k; cbn; [rewrite A; reflexivity|exact B|exact C].
 Qed.
 
